@@ -15,7 +15,7 @@ FRAG = ["select", "from", "where", "case", "when", "then", "else", "end", "if", 
         "returning", "except", "# c\n", "--+h\n", "´t´", "[sq]", "at time zone 'utc'", "not like", "SELECT", "From",
         "END  IF", "Order\tBy", "ſelect", "K", "İ", "ı", "1.", ".5", "-1", "e", "E5", "x", "_", "À"]
 
-ODD = [0x17f, 0x212a, 0x130, 0x131, 0xdf, 0x3a3, 0x3c2, 0x1c5, 36, 39, 34, 92, 96, 180, 10, 13, 0x85, 0x2028, 0x1c, 0xa0,
+ODD = [0xfeff, 0xfffe, 0x200b, 0x2060, 0xfff9, 0x17f, 0x212a, 0x130, 0x131, 0xdf, 0x3a3, 0x3c2, 0x1c5, 36, 39, 34, 92, 96, 180, 10, 13, 0x85, 0x2028, 0x1c, 0xa0,
        0x3000, 0, 9, 11, 12, 0x1f, 35, 45, 47, 42, 43, 0xc0, 0xdc, 0xd7, 0xf7, 0xe9]
 
 
@@ -95,3 +95,34 @@ def mixed(rng):
     if r < 0.8:
         return g23(rng)
     return g3(rng)
+
+
+# --- splitter-focused sequences: only what StatementSplitter can see, densely ------------------------------------------------
+SPLIT_VOCAB = ['begin', 'BEGIN', 'end', 'END', 'create', 'CREATE OR REPLACE', 'declare', 'if', 'IF', 'end if', 'END  IF', 'for', 'while', 'case', 'loop',
+               'end loop', 'end while', 'END\tWHILE', '(', ')', ';', ';', ';', 'x', 'table', 'procedure p', 'go', 'GO', 'GO 2', '\n', ' ', '-- c\n', '/* c */',
+               'select 1', 'not exists', 'then', 'else', "'s;'", 'transaction', 'commit', 'as', '$$ a; $$']
+
+
+def gsplit(rng, maxlen=14):
+    return ' '.join(rng.choice(SPLIT_VOCAB) for _ in range(rng.randint(1, maxlen)))
+
+
+def gsplit_exhaustive(maxlen, core=None):
+    """every sequence over a vocabulary up to maxlen (bounded-exhaustive correspondence of the splitter state machine)"""
+    core = core or ['begin', 'end', 'create', 'declare', 'if', 'end if', 'for', 'while', 'case', 'loop', 'end loop', '(', ')', ';', 'x', 'GO']
+    import itertools
+    for n in range(1, maxlen + 1):
+        for seq in itertools.product(core, repeat=n):
+            yield ' '.join(seq)
+
+
+SPLIT_ALPHABETS = [(['begin', 'end', 'create', 'if', ';', 'x'], 6), (['declare', 'case', 'for', 'end if', '(', ')', ';', 'create'], 5),
+                   (['create', 'begin', 'case', 'end', 'while', 'end while', ';'], 4)]
+
+
+# --- assignment-focused sequences (`:=` chains reach the stale-index paths of the generic grouping driver) -----------------------------
+ASSIGN_VOCAB = ['@a', '@b', 'x', 'y', ':=', ':=', ':=', '1', '2', ';', ';', ',', 'set', 'select', 'update t set', '(', ')', '=', 'insert', 'z', "'s'", ' ', 'as', '+']
+
+
+def gassign(rng, maxlen=12):
+    return ' '.join(rng.choice(ASSIGN_VOCAB) for _ in range(rng.randint(2, maxlen)))
